@@ -617,9 +617,9 @@ def eval_rt(line, meta, res):
                 st["former_f37_trigger"] = st.get("former_f37_trigger", 0) + 1
             if need > 0:
                 if s2c != "ok":
-                    viol.append("message %d (%d bytes, deflate output %d bytes, buffer %s): server->client %s" % (k, ln, need, bound, s2c))
+                    viol.append("message %d (%d bytes, deflate output %d bytes, websocket_compress_bound %s): server->client %s" % (k, ln, need, bound, s2c))
                 elif bound != "-" and int(bound) <= need:
-                    viol.append("message %d: sent although the buffer (%s) is not larger than the deflate output (%d)" % (k, bound, need))
+                    viol.append("message %d: websocket_compress_bound (%s) is not larger than the deflate output (%d)" % (k, bound, need))
             else:
                 st["zlib_refuses"] = st.get("zlib_refuses", 0) + 1
                 if s2c != "fail:-1":
@@ -745,6 +745,7 @@ def run(ctx, out):
 
     # ------------------------------------------------------------------ 0. regression replays of the findings
     still_open = {}
+    nreg = {}
     for f in C.known_findings("C19"):
         path = os.path.join(C.ROOT, f.get("replay", ""))
         if not os.path.isfile(path):
@@ -790,6 +791,9 @@ def run(ctx, out):
             if not bad and mline is not None and op in ("frags", "offer") and canon(mline) != canon(r["obs"]):
                 bad = "model and implementation differ"
             if bad and f.get("status") == "fixed":
+                nreg[f["id"]] = nreg.get(f["id"], 0) + 1
+                if nreg[f["id"]] > 3:          # the first three lines are enough of a report
+                    continue
                 out.violation("regression scenario of fixed finding %s fails: %s" % (f["id"], bad),
                               {"property": "C19", "finding": f["id"], "script": [l], "variant": "default", "seed": ctx.seed,
                                "impl": r, "model": mline, "clause": bad})
